@@ -12,7 +12,8 @@ PROP = "C18"
 LEVEL = "exploration"
 RULE = ("Real p2p.Node with real PeerThreads running the real recv_loop over per-peer scripted sockets carrying 1..3 messages "
         "from {ping, version, verack, inv, addr, unknown}; every ping nonce / inv hash / addr timestamp / unknown command "
-        "name is unique per (peer, sequence number), so the final history is unambiguous.  A serialising scheduler lets "
+        "name is unique per (peer, sequence number), so the final history is unambiguous (plus, deliberately, byte-identical "
+        "inv / unknown messages repeated by one peer and sent by several: judged as a multiset per peer).  A serialising scheduler lets "
         "exactly one thread run between scheduling points: (i) container level - deque append/pop/popleft, membership "
         "test on the handled-command list, sendall; (ii) line level - every source line of recv_loop and the handle_* "
         "methods via sys.monitoring.  Strategies: depth-first enumeration of ALL schedules for the 2-peer x <=2-message "
@@ -24,7 +25,7 @@ ASSUMPTIONS = ["CPython may switch threads between any two of the instrumented o
                "end of a peer's stream is signalled the way the loop itself exits: the thread's exit event is set and recv raises TimeoutError"]
 MAG = rp.MAGIC["mainnet"]
 HANDLED = (b"version", b"verack", b"ping")
-KINDS = ["ping", "version", "verack", "inv", "addr", "unknown", "ping", "inv", "ping0", "pingmax"]
+KINDS = ["ping", "version", "verack", "inv", "addr", "unknown", "ping", "inv", "ping0", "pingmax", "inv_same", "inv_same", "unknown_same"]
 
 SMALL_SCENARIOS = [
     [["ping", "inv"], ["inv", "ping"]],
@@ -35,6 +36,10 @@ SMALL_SCENARIOS = [
     [["inv"], ["ping", "ping"]],
     [["ping"], ["inv"]],
     [["addr", "ping"], ["verack", "inv"]],
+    # byte-identical messages, from one peer and from two: unique payloads make histories unambiguous, but "the same message
+    # twice" is a legitimate history of its own (re-announcements) and exactly-once must hold for it as well
+    [["inv_same", "inv_same"], ["addr"]],
+    [["inv_same", "ping"], ["inv_same"]],
 ]
 
 
@@ -64,6 +69,12 @@ def build_message(kind, peer, seq):
         sv, ipb = b"\x01" + b"\x00" * 7, b"\x00" * 10 + b"\xff\xff" + bytes([10, 0, peer, seq])
         p = rp.addr_payload([(t, sv, ipb, 8333)])
         return b"addr", p, {"addrs": [{"time": t, "services": sv, "ip_addr": ipb, "port": 8333}]}, None
+    if kind == "inv_same":
+        h = b"\x22" * 32
+        p = rp.inv_payload([("MSG_BLOCK", h)])
+        return b"inv", p, {"count": 1, "inventory": [{"type_id": "MSG_BLOCK", "hash": h.hex()}]}, None
+    if kind == "unknown_same":
+        return b"samecmd", b"\x07\x07", "UNPARSED", None
     if kind == "unknown":
         return b"u%dx%d" % (peer, seq), bytes([peer, seq, 7]), "UNPARSED", None
     raise ValueError(kind)
@@ -372,7 +383,7 @@ def run_case(kind, params, ctx):
         # many messages per peer: windows inside a single statement (e.g. an iteration over the shared queue) that no
         # scheduling point separates are only reachable by real preemption
         for r in range(params["runs"]):
-            scenario = [[rng.choice(["inv", "addr", "unknown", "ping", "inv"]) for _ in range(params["msgs"])] for _ in range(params["peers"])]
+            scenario = [[rng.choice(["inv", "addr", "unknown", "ping", "inv", "inv_same", "inv_same"]) for _ in range(params["msgs"])] for _ in range(params["peers"])]
             run = Run(scenario, None, "none", serialised=False, frag=(rng.getrandbits(24) if r % 2 else None))
             run.execute()
             ctx.count("stress.runs")
